@@ -71,7 +71,18 @@ func genC32(t *rapid.T) c32Case {
 			if c.Predef[cl] == nil {
 				c.Predef[cl] = map[uint16]string{}
 			}
-			c.Predef[cl][uint16(rapid.IntRange(1, 4).Draw(t, "id"))] = rapid.SampledFrom(c32Names).Draw(t, "name")
+			id := uint16(rapid.IntRange(1, 4).Draw(t, "id"))
+			if cl != "*" && len(c.Predef["*"]) > 0 && rapid.Bool().Draw(t, "overlap") {
+				// an ID which '*' defines as well (in ascending order, so that the draw is reproducible)
+				var ids []uint16
+				for k := uint16(1); k <= 4; k++ {
+					if _, ok := c.Predef["*"][k]; ok {
+						ids = append(ids, k)
+					}
+				}
+				id = rapid.SampledFrom(ids).Draw(t, "star_id")
+			}
+			c.Predef[cl][id] = rapid.SampledFrom(c32Names).Draw(t, "name")
 		}
 	}
 	if rapid.IntRange(0, 5).Draw(t, "repo_example") == 0 {
@@ -85,6 +96,22 @@ func genC32(t *rapid.T) c32Case {
 		switch op.Kind {
 		case "pubpre", "subpre":
 			op.ID = uint16(rapid.IntRange(1, 4).Draw(t, "opid"))
+			if rapid.IntRange(0, 4).Draw(t, "defined_id") > 0 {
+				// mostly an ID the client has a name for (an undefined one ends the session)
+				var ids []uint16
+				for k := uint16(1); k <= 4; k++ {
+					_, o := c.Predef[c.ClientID][k]
+					_, st := c.Predef["*"][k]
+					if o && st {
+						ids = append(ids, k, k) // shadowed ones twice
+					} else if o || st {
+						ids = append(ids, k)
+					}
+				}
+				if len(ids) > 0 {
+					op.ID = rapid.SampledFrom(ids).Draw(t, "defined_opid")
+				}
+			}
 		case "pubshort", "subshort":
 			op.Name = genShort(t)
 		case "pubtool", "subtool":
